@@ -31,6 +31,7 @@ Definition K_operator : N := 3.  Definition K_flag_i : N := 4.   Definition K_fl
 Definition K_flag_s : N := 6.    Definition K_field1 : N := 7.   Definition K_field2 : N := 8.
 Definition K_tspart : N := 9.    Definition K_network : N := 10. Definition K_prefixlen : N := 11.
 Definition K_netmask : N := 12.   Definition K_backend : N := 13.
+Definition K_op : N := 14.       Definition K_list : N := 15.
 Definition env := list (N * str).
 Fixpoint lookup (k : N) (e : env) : option str :=
   match e with
@@ -80,7 +81,8 @@ Record lcfg := {
   l_ff : option tpl; l_ffsw : option tpl; l_ffew : option tpl; l_ffct : option tpl;
   l_ff_q1 : bool; l_ff_q2 : bool;
   l_ts : option tpl; l_ts_map : list (N * str);
-  l_ub_str : option tpl; l_ub_num : option tpl; l_ub_re : option tpl
+  l_ub_str : option tpl; l_ub_num : option tpl; l_ub_re : option tpl;
+  l_in : option tpl; l_or_in_op : str; l_and_in_op : str; l_list_sep : option str     (* field_in_list_expression, ... *)
 }.
 
 (* oracle for one field name: match positions of field_escape_pattern, quote decision *)
@@ -236,4 +238,28 @@ Definition render_val (K : lcfg) (pm : bool) (v : lval) : outcome str :=
         obind (flag_env K fi fm fs) (fun fe => fmt t ((K_value, value_re K rx fi fm fs) :: fe)))
   | LBool _ | LCidr _ _ _ _ => SigmaErr E_Value
   | _ => Crash C_TypeError
+  end.
+
+(* convert_condition_as_in_expression (l.1660): the arguments are string or number leaves of one field
+   (decide_convert_condition_as_in_expression, Model/Backend.v decide_in); pm: str_quote_pattern decision
+   per string value *)
+Fixpoint join_texts (sep : str) (l : list str) : str :=
+  match l with [] => [] | [x] => x | x :: r => x ++ sep ++ join_texts sep r end.
+Fixpoint in_texts (K : lcfg) (vals : list (lval * bool)) : outcome (list str) :=
+  match vals with
+  | [] => Ok []
+  | (v, pm) :: r =>
+      obind (match v with
+             | LStr _ sv => value_str K pm sv
+             | LNum txt => Ok txt
+             | _ => Crash C_TypeError
+             end) (fun t => obind (in_texts K r) (fun ts => Ok (t :: ts)))
+  end.
+Definition render_in (K : lcfg) (disj : bool) (f : str) (fo : foracle) (vals : list (lval * bool)) : outcome str :=
+  match l_in K, l_list_sep K with
+  | Some t, Some sep =>
+      obind (in_texts K vals) (fun ts =>
+        fmt t [(K_field, qfield K fo f); (K_op, if disj then l_or_in_op K else l_and_in_op K);
+               (K_list, join_texts sep ts)])
+  | _, _ => Crash C_NotImplemented
   end.
